@@ -287,9 +287,10 @@ Fixpoint uexpr_dom (f : ref -> bool) (e : uexpr) : bool :=
 Definition kind_of_how (how : string) : jkind :=
   match spark_kind how with Some JCross => JInner | Some k => k | None => JInner end.
 
-Definition step_dom (s : st) (R : frame) (octes : list cmeta) (on : onform) (how : string) (same_branch : bool) : bool :=
+Definition step_dom (s : st) (R : frame) (rbase : nat) (octes : list cmeta) (on : onform) (how : string) (same_branch : bool) : bool :=
   let k := kind_of_how how in
   let has_joins := negb (Nat.eqb (List.length (s_tabs s)) 1) in
+  let out' := s_sel s ++ map (fun n => (ECol (qn (List.length (s_tabs s)) n), n)) (cols R) in
   smem how documented && nodupb (cols R) && negb (jkind_eqb k JRight) &&
   match on with
   | OnNone => smem how ["inner"; "cross"] && forallb (complete s) (cols R)
@@ -298,7 +299,8 @@ Definition step_dom (s : st) (R : frame) (octes : list cmeta) (on : onform) (how
       && (is_semi_anti k || forallb (complete s) (filter (fun n => negb (smem n ks)) (cols R)))
   | OnExprs es =>
       negb (match es with [] => true | _ => false end)
-      && forallb (uexpr_dom (ref_dom (s_ctes s) octes has_joins same_branch)) es
+      && forallb (uexpr_dom (fun r => ref_dom (s_ctes s) octes has_joins same_branch r
+                                      && ref_valid (s_tabs s ++ [R]) (s_bases s ++ [rbase]) out' r)) es
       && (is_semi_anti k || forallb (complete s) (cols R))
   end.
 
@@ -368,12 +370,13 @@ Proof.
       apply Nat.eqb_eq in H. subst. reflexivity.
 Qed.
 
-Lemma on_uexpr_ok ctes octes hj nt sb tcs' out e :
-  uexpr_dom (ref_dom ctes octes hj sb) e = true ->
-  resolve_uexpr (norm_on_ref ctes octes hj nt sb tcs') e = sp_uexpr out e.
+Lemma on_uexpr_ok ctes octes hj nt sb tcs' valid out e :
+  uexpr_dom (fun r => ref_dom ctes octes hj sb r && valid r) e = true ->
+  resolve_uexpr (norm_on_ref ctes octes hj nt sb tcs') e = sp_uexpr valid out e.
 Proof.
   induction e as [r|v|o a IHa b IHb|a IHa|a IHa]; simpl; intro H.
-  - assert (H' := on_ref_ok ctes octes hj nt sb tcs' r H).
+  - apply andb_true_iff in H. destruct H as [H Hv]. rewrite Hv.
+    assert (H' := on_ref_ok ctes octes hj nt sb tcs' r H).
     destruct r as [n|t b uo n|t sq n]; [contradiction| |]; rewrite H'; reflexivity.
   - reflexivity.
   - apply andb_true_iff in H. destruct H as [H1 H2]. rewrite IHa, IHb by assumption. reflexivity.
@@ -526,7 +529,7 @@ Lemma keys_resolve s R ks :
     /\ map snd pairs = ks
     /\ (forall p, In p pairs -> hd_error (tabs_with (indexed (s_tabs s)) (snd p)) = Some (fst p))
     /\ map_opt (fun key => match named key (s_sel s), count_str key (cols R) with
-                           | [it], 1%nat => Some (fst it, key)
+                           | it :: _, 1%nat => Some (fst it, key)
                            | _, _ => None
                            end) ks
        = Some (map (fun p : nat * string => (ECol (qn (fst p) (snd p)), snd p)) pairs).
